@@ -12,6 +12,9 @@
 #include <errno.h>
 #include <stdint.h>
 #include "vtrace.h"
+#if defined (__SANITIZE_ADDRESS__)
+#include <sanitizer/lsan_interface.h>
+#endif
 
 /* ------------------------------------------------------------------ failing, tracking allocator */
 static long alloc_no, fail_k; static int fail_mode; static int refused_in_call; static int tracking; static int nofail; static int ever_refused;
@@ -187,6 +190,8 @@ static void prog_sockaddr (void) {
 	}
 	memset (&sin, 0, sizeof sin); sin.sin_family = AF_INET; sin.sin_port = htons (5); sin.sin_addr.s_addr = htonl (INADDR_LOOPBACK);
 	B ("p_socket_address_new_from_native"); b = p_socket_address_new_from_native (&sin, sizeof sin); E (b != NULL, 1, 1); if (b) p_socket_address_free (b);
+	B ("p_socket_address_new"); b = p_socket_address_new ("::1", 81); E (b != NULL, 1, 1); if (b) p_socket_address_free (b);
+	B ("p_socket_address_new"); b = p_socket_address_new ("fe80::1%lo", 82); ED (1, 1, 1); if (b) p_socket_address_free (b);
 	B ("p_socket_address_new_any"); b = p_socket_address_new_any (P_SOCKET_FAMILY_INET6, 9); E (b != NULL, 1, 1); if (b) p_socket_address_free (b);
 	B ("p_socket_address_new_loopback"); b = p_socket_address_new_loopback (P_SOCKET_FAMILY_INET, 9); E (b != NULL, 1, 1); if (b) p_socket_address_free (b);
 }
@@ -411,6 +416,11 @@ static int child_run (Prog *pr, long k, int mode, const char *path) {
 	tracking = 0;
 	vt_emit ("{\"e\":\"quiesce\",\"allocs\":%ld,\"live\":%d}", alloc_no, nlive);
 	p_mem_restore_vtable ();
+#if defined (__SANITIZE_ADDRESS__)
+	/* memory the C library allocated on behalf of a call (resolver results, ...) does not go through the allocator table: blocks that
+	 * nothing points to any more are found by the leak checker of the sanitizer build (the ledger's own table keeps its blocks reachable) */
+	{ fflush (vt_fp); vt_emit ("{\"e\":\"lsan\",\"leaks\":%d}", __lsan_do_recoverable_leak_check () ? 1 : 0); }
+#endif
 	fflush (vt_fp);
 	{ FILE *f = fopen (path, "a"); (void) f; }
 	{ char cnt[300]; FILE *f; snprintf (cnt, sizeof cnt, "%s.count", path); f = fopen (cnt, "w"); if (f) { fprintf (f, "%ld\n", alloc_no); fclose (f); } }
